@@ -34,7 +34,7 @@ func concOps() []concOp {
 		ops = append(ops, func(seed uint64) string { // writers
 			s := genSubs(newRng(seed, "subs"), f)
 			var b bytes.Buffer
-			if err := writeWith(f, s, &b); err != nil {
+			if err := writeRaw(f, s, &b); err != nil {
 				return f + ":w:" + errClass(err)
 			}
 			return f + ":w:" + encBytes(b.Bytes())
@@ -148,7 +148,7 @@ func init() {
 		first := map[string]string{}
 		write := func(f string) string {
 			var b bytes.Buffer
-			if err := writeWith(f, s, &b); err != nil {
+			if err := writeRaw(f, s, &b); err != nil {
 				return errClass(err)
 			}
 			return encBytes(b.Bytes())
@@ -251,11 +251,41 @@ func genStyledSubs(r *rng) *astisub.Subtitles {
 		if r.bool() {
 			sa.WebVTTAlign = "left"
 		}
+		// attributes of the other codecs, as a list read from another format would carry them
+		if r.chance(1, 3) {
+			sa.SRTColor = strp([]string{"#ff0000", "#00ff00"}[r.intn(2)])
+			if r.bool() {
+				sa.TTMLColor = sa.SRTColor
+			}
+		}
+		if r.chance(1, 4) {
+			sa.SRTBold, sa.WebVTTBold = true, true
+			sa.WebVTTTags = []astisub.WebVTTTag{{Name: "b"}}
+		}
+		if r.chance(1, 4) {
+			sa.WebVTTTags = []astisub.WebVTTTag{{Name: "c", Classes: []string{"red"}}, {Name: "lang", Annotation: "en"}}
+		}
+		if r.chance(1, 4) {
+			sa.SSAEffect = []string{"{\\i1}", "{\\an8}", "{\\b1\\c&HFF&}"}[r.intn(3)]
+		}
+		if r.chance(1, 5) {
+			sa.STLItalics, sa.STLUnderline = boolp(r.bool()), boolp(r.bool())
+		}
+		if r.chance(1, 6) {
+			sa.TeletextColor = astisub.ColorRed
+		}
 		return sa
 	}
 	var styleIDs, regionIDs []string
+	idPool := []string{"style0", "Style0", "STYLE0", "title", "Title", "a", "A", "b1", "B1", "style3", "é", "É"}
 	for i := 0; i < ns; i++ {
 		id := fmt.Sprintf("style%d", i)
+		if r.chance(1, 2) {
+			id = idPool[r.intn(len(idPool))]
+			if _, ok := s.Styles[id]; ok {
+				id = fmt.Sprintf("style%d", i)
+			}
+		}
 		st := &astisub.Style{ID: id, InlineStyle: mkAttrs()}
 		if i > 0 && r.chance(1, 3) {
 			st.Style = s.Styles[styleIDs[r.intn(len(styleIDs))]]
@@ -265,6 +295,12 @@ func genStyledSubs(r *rng) *astisub.Subtitles {
 	}
 	for i := 0; i < nr; i++ {
 		id := fmt.Sprintf("region%d", i)
+		if r.chance(1, 2) {
+			id = idPool[r.intn(len(idPool))]
+			if _, ok := s.Regions[id]; ok {
+				id = fmt.Sprintf("region%d", i)
+			}
+		}
 		rg := &astisub.Region{ID: id, InlineStyle: mkAttrs()}
 		if ns > 0 && r.chance(1, 3) {
 			rg.Style = s.Styles[styleIDs[r.intn(ns)]]
